@@ -21,7 +21,14 @@ func fieldVal[T any](obj yobj, key string) (v T, ok bool, err error) {
 	}
 
 	if val == nil {
-		return v, true, nil
+		switch any(v).(type) {
+		case yobj, yarr:
+			// Consider a null section absent, since values cannot be assigned
+			// into a nil map.
+			return v, false, nil
+		default:
+			return v, true, nil
+		}
 	}
 
 	v, ok = val.(T)
